@@ -211,6 +211,7 @@ func run12(c *fw.Ctx) {
 	}
 	builtinPrivacy(c)
 	fileModules(c)
+	manyModules(c)
 }
 
 func one(c *fw.Ctx, body []gen.Stmt, mods map[string][]gen.Stmt, modSrc map[string]string, cyclic bool, key string) {
@@ -270,7 +271,7 @@ func one(c *fw.Ctx, body []gen.Stmt, mods map[string][]gen.Stmt, modSrc map[stri
 // module is reached from main by every pair of spellings of its path, directly and through two other modules, under
 // relative and absolute working directories: its body must run once and all imports must be the same object.
 func fileModules(c *fw.Ctx) {
-	c.Family("file-importer", "one module file reached by every ordered pair of 9 path spellings (plain, ./, through a sub directory and back, above the root and back, absolute, through a sibling module, through a module in a sub directory, from inside a function) x 4 working directories (., empty, relative, absolute) x optimizer on/off")
+	c.Family("file-importer", "one module file reached by every ordered pair of 10 path spellings (plain, ./, through a sub directory and back, above the root and back, absolute, through a sibling module, through a module in a sub directory, from inside a function) x 4 working directories (., empty, relative, absolute) x optimizer on/off")
 	cwd, err := filepath.Abs(".")
 	if err != nil {
 		c.Infra("getwd: %v", err)
@@ -311,6 +312,7 @@ func fileModules(c *fw.Ctx) {
 			{"via-subdir-module", "import(\"" + w.prefix + "sub/b.ugo\")"},
 			{"in-function", "func() { return import(\"" + w.prefix + "state.ugo\") }()"},
 			{"abs-via-sibling", "import(\"" + filepath.Join(root, "a.ugo") + "\")"},
+			{"absolute-sub-and-back", "import(\"" + root + "/sub/../state.ugo\")"},
 		}
 		for _, s1 := range spell {
 			for _, s2 := range spell {
@@ -343,6 +345,72 @@ func fileModules(c *fw.Ctx) {
 					if want := "OK [2, 3] log=[state body]"; got != want {
 						c.Violation(key, fmt.Sprintf("the module file is reached by two spellings of its path: %s, want %s", got, want), map[string]any{"main": src, "workdir": w.dir})
 					}
+				}
+			}
+		}
+	}
+}
+
+// manyModules: module indexes around the one-byte boundary of the instruction operands.
+func manyModules(c *fw.Ctx) {
+	c.Family("many-modules", "N = 255, 256, 257, 300 source modules, each imported twice from main: every body runs once, both imports give the same object, no module is replaced by another; optimizer on/off x encode/decode")
+	for _, n := range []int{255, 256, 257, 300} {
+		for _, noopt := range []bool{false, true} {
+			for _, rt := range []int{0, 1} {
+				if !c.Next() {
+					continue
+				}
+				key := fmt.Sprintf("many-modules n=%d noopt=%v roundtrips=%d", n, noopt, rt)
+				if c.Skip(key) {
+					continue
+				}
+				c.Nontrivial()
+				c.AddStates(1)
+				mm := ugo.NewModuleMap()
+				var sb strings.Builder
+				sb.WriteString("global L\nbad := []\nvar (a, b)\n")
+				for k := 0; k < n; k++ {
+					mm.AddSourceModule(fmt.Sprintf("m%d", k), []byte(fmt.Sprintf("global L\nL(%d)\nst := {id: %d, n: 0}\nreturn st\n", k, k)))
+				}
+				for k := 0; k < n; k++ {
+					fmt.Fprintf(&sb, "a = import(\"m%d\"); a.n++; b = import(\"m%d\"); if a.id != %d || b.id != %d || b.n != 1 { bad = append(bad, [%d, a.id, b.id, b.n]) }\n", k, k, k, k, k)
+				}
+				// and again at the end: still the same objects
+				fmt.Fprintf(&sb, "z := import(\"m0\"); y := import(\"m%d\"); return [bad, z.id, z.n, y.id, y.n]\n", n-1)
+				bc, err := ugo.Compile([]byte(sb.String()), ugo.CompilerOptions{ModuleMap: mm, NoOptimize: noopt})
+				if err != nil {
+					c.Violation(key, "compiling fails: "+err.Error(), nil)
+					continue
+				}
+				if rt > 0 {
+					var rerr error
+					bc, rerr = run.RoundTrip(bc, mm, rt)
+					if rerr != nil {
+						c.Violation(key, "encode/decode fails: "+rerr.Error(), nil)
+						continue
+					}
+				}
+				counts := map[string]int{}
+				g := ugo.Map{"L": &ugo.Function{Name: "L", Value: func(a ...ugo.Object) (ugo.Object, error) {
+					counts[a[0].String()]++
+					return ugo.Undefined, nil
+				}}}
+				v, rerr := ugo.NewVM(bc).Run(g)
+				c.AddTraces(1)
+				c.AddTransitions(int64(2 * n))
+				want := fmt.Sprintf("OK [[], 0, 1, %d, 1]", n-1)
+				got := uv.Outcome(v, rerr)
+				twice := 0
+				for k := 0; k < n; k++ {
+					if counts[fmt.Sprint(k)] != 1 {
+						twice++
+					}
+				}
+				if got != want || twice > 0 {
+					if len(got) > 300 {
+						got = got[:300] + "..."
+					}
+					c.Violation(key, fmt.Sprintf("with %d modules: %s (want %s); %d module bodies did not run exactly once", n, got, want, twice), nil)
 				}
 			}
 		}
